@@ -82,7 +82,7 @@ func c13Drain(b c13Bucket, cap int64) int64 {
 }
 
 func c13Run(c *Ctx, level string, mk func(rs []rateSpec) c13Bucket) {
-	c.Cases("state", c.N(500, 15000), func(i int, r *rand.Rand) {
+	c.Cases("state", c.N(2500, 80000), func(i int, r *rand.Rand) {
 		rs := genRates(r, 3)
 		if i%3 == 0 && len(rs) < 2 { // multi-rate shapes in which the short-period bucket refuses while the long one could pay
 			rs = []rateSpec{{time.Second, int64(1 + r.IntN(5)), int64(1 + r.IntN(5))}, {time.Minute, int64(20 + r.IntN(100)), int64(20 + r.IntN(100))}}
@@ -236,7 +236,7 @@ func c13HTTP(c *Ctx) {
 // c13FloodConc: rejected requests arriving concurrently from one source must still cost nothing
 // (the debit-all / roll-back-all sequence has to be atomic per source).
 func c13FloodConc(c *Ctx) {
-	c.Cases("floodconc", c.N(30, 600), func(i int, r *rand.Rand) {
+	c.Cases("floodconc", c.N(80, 2000), func(i int, r *rand.Rand) {
 		short := rateSpec{time.Second, int64(1 + r.IntN(3)), int64(1 + r.IntN(3))}
 		long := rateSpec{pick(r, []time.Duration{time.Minute, time.Hour}), int64(50 + r.IntN(100)), int64(50 + r.IntN(100))}
 		rs := []rateSpec{short, long}
